@@ -419,8 +419,14 @@ Proof.
       * cbn [app]. step_simpl. rewrite d64_enc64' by assumption. reflexivity.
 Qed.
 
+(* COLROW of an AREF: at least one column and one row, at most 32767 (the reader divides the lattice extent by them;
+   the strict grammar rejects anything else) *)
+Definition count16 (z : Z) : Prop := (1 <= z < 32768)%Z.
+Lemma count16_fits z : count16 z -> fits16 z.
+Proof. unfold count16, fits16. lia. Qed.
+
 Definition rep_ok_g (origin : pt) (refl : bool) (rot : N) (g : grep) : Prop :=
-  fits16 (g_cols g) /\ fits16 (g_rows g) /\ fits_pt (g_p2 g) /\ fits_pt (g_p3 g) /\
+  count16 (g_cols g) /\ count16 (g_rows g) /\ fits_pt (g_p2 g) /\ fits_pt (g_p3 g) /\
   g_regular g = negb ((real_mantissa rot =? 0) && negb refl) /\
   (g_regular g = false -> snd (g_p2 g) = snd origin /\ fst (g_p3 g) = fst origin).
 
@@ -441,6 +447,7 @@ Proof.
   unfold ref_records. cbn [r_name r_origin r_refl r_mag r_rot r_rep r_props].
   destruct rp as [g|].
   - destruct Hrep as (Hc & Hrw & [H2x H2y] & [H3x H3y] & Hreg & Hrect).
+    apply count16_fits in Hc. apply count16_fits in Hrw.
     destruct g as [gc gr greg [x2 y2] [x3 y3]]. cbn [g_cols g_rows g_regular g_p2 g_p3 fst snd] in *.
     rewrite <- !app_assoc. cbn [app]. step_simpl. rewrite strip_nul_pad by assumption.
     rewrite run_strans_ref by assumption. cbn [app]. step_simpl.
@@ -596,14 +603,21 @@ Proof.
     exists dn2, cu2, wd2, ky2, ps2. split; [exact H2|]. rewrite Hf. cbn [flush]. rewrite <- app_assoc. reflexivity.
 Qed.
 
+(* the two UNITS reals are positive: sign bit clear, mantissa non-zero (the reader scales with the first and divides by it;
+   the strict grammar rejects anything else) *)
+Definition unit_ok (v : N) : Prop := v < 9223372036854775808 /\ 0 < real_mantissa v.
+Lemma unit_ok_real v : unit_ok v -> real_ok v.
+Proof. unfold unit_ok, real_ok. lia. Qed.
+
 Definition lib_ok (l : glib) : Prop :=
-  no_nul (g_name l) /\ real_ok (fst (g_units l)) /\ real_ok (snd (g_units l)) /\ Forall cell_ok (g_cells l).
+  no_nul (g_name l) /\ unit_ok (fst (g_units l)) /\ unit_ok (snd (g_units l)) /\ Forall cell_ok (g_cells l).
 Definition canon_lib (l : glib) : glib :=
   {| g_name := g_name l; g_units := g_units l; g_cells := map canon_cell (g_cells l) |}.
 
 Theorem run_lib ts l : lib_ok l -> run None init_state (lib_records ts l) = SRet (canon_lib l).
 Proof.
-  intros (Hn & Hu0 & Hu1 & Hc). destruct l as [nm [u0 u1] cells]. cbn [g_name g_units g_cells fst snd] in *.
+  intros (Hn & Hu0 & Hu1 & Hc). apply unit_ok_real in Hu0. apply unit_ok_real in Hu1.
+  destruct l as [nm [u0 u1] cells]. cbn [g_name g_units g_cells fst snd] in *.
   unfold lib_records, init_state. cbn [g_name g_units g_cells fst snd]. rewrite <- ?app_assoc. cbn [app]. step_simpl.
   rewrite strip_nul_pad by assumption.
   rewrite d64_enc64 by assumption. rewrite <- (app_nil_r (enc64 u1)). rewrite d64_enc64_1 by assumption.
@@ -775,10 +789,10 @@ Proof.
   unfold lib_ok, lib_fits, ex_lib. cbn [g_name g_units g_cells fst snd].
   repeat split;
     repeat (first [ apply Forall_cons | apply Forall_nil ]);
-    unfold cell_ok, cell_fits, cell_elems, no_nul, str_fits, real_ok; cbn;
+    unfold cell_ok, cell_fits, cell_elems, no_nul, str_fits, real_ok, unit_ok, real_mantissa; cbn;
     repeat split;
     repeat (first [ apply Forall_cons | apply Forall_nil ]);
-    unfold poly_ok, path_ok, ref_ok, label_ok, rep_ok_g, prop_ok, props_fit, fits16, fits32, fits_pt, no_nul, str_fits, real_ok; cbn;
+    unfold poly_ok, path_ok, ref_ok, label_ok, rep_ok_g, count16, prop_ok, props_fit, fits16, fits32, fits_pt, no_nul, str_fits, real_ok; cbn;
     repeat split;
     repeat (first [ apply Forall_cons | apply Forall_nil ]);
     unfold fits32, fits_pt, prop_ok, no_nul, str_fits; cbn; repeat split;
